@@ -241,4 +241,116 @@ def step (s : State) : Op → State
 
 def run (s : State) (ops : List Op) : State := ops.foldl step s
 
+/-! ### `ThirdCoreHexToFullCoreChanger._scaleBlockVolIntegratedParams`, one parameter value -/
+
+/-- what a block parameter can hold, as far as `_scaleBlockVolIntegratedParams` distinguishes: `None`, a Python
+`list` (`type(v) is list`), anything else that supports `*` / `/` with 3 elementwise (float, numpy array) -/
+inductive PVal where
+  | none
+  | list (l : List Rat)
+  | scalar (q : Rat)
+  | array (l : List Rat)
+deriving DecidableEq, Repr
+
+/-- one iteration of `for param in self.listOfVolIntegratedParamsToScale:` for direction "up" (`operator.mul`) or
+"down" (`operator.truediv`): `None` is skipped, a list is rebuilt element by element, everything else is `op(v, 3)` -/
+def scaleVal (up : Bool) : PVal → PVal
+  | .none => .none
+  | .list l => .list (l.map (fun x => if up then x * 3 else x / 3))
+  | .scalar q => .scalar (if up then q * 3 else q / 3)
+  | .array l => .array (l.map (fun x => if up then x * 3 else x / 3))
+
+/-- `_scaleBlockVolIntegratedParams(b, direction)` on the values of the listed parameters of one block -/
+def scaleBlockVals (up : Bool) (vals : List PVal) : List PVal := vals.map (scaleVal up)
+
+/-! ### below block level: pin lattices (`block.spatialGrid`), their `armiObject` back references, child locators
+
+What hangs below an assembly, as far as an observer of pins sees it.  Objects are named by the assembly they were
+created for and their role in it: `(assemNum, role)`.  (The harness names the real objects the same way, by FIRST
+encounter walking the core's children: an object met under two assemblies keeps the first name, so sharing shows up as
+a name that does not carry the holder's number.)  The table `Sub` maps assembly numbers to block lists; the converters
+never touch the entries of existing assemblies, they add entries for the copies they make. -/
+
+abbrev Obj := Int × Nat
+
+structure PBlock where
+  /-- the block object -/
+  self : Obj
+  /-- `b.spatialGrid` (none: the block has no pin lattice) -/
+  grid : Option Obj
+  /-- `b.spatialGrid.armiObject` -/
+  owner : Option Obj
+  /-- every child locator that has a grid sits on `b.spatialGrid` -/
+  onOwn : Bool
+  /-- local (i, j) of the observed child-locator sites, in child / pin order -/
+  pins : List (Int × Int)
+deriving DecidableEq, Repr
+
+abbrev Sub := List (Int × List PBlock)
+
+/-- the blocks of the assembly with number `k` -/
+def subOf (sub : Sub) (k : Int) : List PBlock :=
+  match sub.find? (fun e => e.1 = k) with
+  | some e => e.2
+  | none => []
+
+def renObj (new : Int) (o : Obj) : Obj := (new, o.2)
+
+/-- one block of `copy.deepcopy(a)` + `makeUnique` / `Core.add` renumbering to `new` + `HexBlock.rotate(rotNum·60°)`:
+`Block.__deepcopy__` registers the new block in the memo first and deep-copies the state, so every object below the
+block is new and references among them are kept; `Composite.__setstate__` then sets `spatialGrid.armiObject = self`
+and associates every child locator with the copy's lattice; `_rotateChildLocations` maps every site through
+`rotateIndex(rotNum)` and returns at once for a block without lattice. -/
+def copyBlock (new rotNum : Int) (b : PBlock) : PBlock :=
+  { self := renObj new b.self
+    grid := b.grid.map (renObj new)
+    owner := if b.grid.isSome then some (renObj new b.self) else none
+    onOwn := b.grid.isSome || b.onOwn
+    pins := if b.grid.isSome then b.pins.map (rotateIndex rotNum) else b.pins }
+
+/-- inner loop of `convert` (see `mkCopies`): `newAssem.rotate(count * 2π/3)`, i.e. `rotNum = 2·count` -/
+def subCopies (sub : Sub) (a : Assem) : Int → Int → List Cell → Sub
+  | _, _, [] => []
+  | n, count, _ :: cs =>
+    (n, (subOf sub a.id).map (copyBlock n (2 * count))) :: subCopies sub a (n + 1) (count + 1) cs
+
+/-- outer loop of `convert` (see `convLoop`) -/
+def subLoop (sub : Sub) : List Assem → Int → Sub
+  | [], _ => []
+  | a :: rest, n =>
+    let cs := subCopies sub a n 1 (sym3 a.cell)
+    cs ++ subLoop sub rest (n + cs.length)
+
+/-- `ThirdCoreHexToFullCoreChanger.convert`, below block level -/
+def subConvert (s : State) (sub : Sub) : Sub :=
+  if s.full then sub else
+  let s1 := removeEdgeCore s
+  sub ++ subLoop sub (s1.kids.mergeSort leJI) s1.next
+
+/-- `addEdgeAssemblies`, below block level (see `addEdgeLoop`; the edge copies are not rotated) -/
+def subAddEdgeLoop : List Assem → State → Sub → Sub
+  | [], _, sub => sub
+  | a :: rest, s, sub =>
+    match sym3 a.cell with
+    | [] => subAddEdgeLoop rest s sub
+    | loc :: _ =>
+      if occupied s.kids loc then subAddEdgeLoop rest s sub
+      else subAddEdgeLoop rest (placeEdge s a loc) (sub ++ [(s.next, (subOf sub a.id).map (copyBlock s.next 0))])
+
+def subAddEdge (s : State) (sub : Sub) : Sub :=
+  if s.full then sub
+  else if !s.edgeAdded.isEmpty then sub
+  else subAddEdgeLoop ((s.kids.filter (fun a => on0 a.cell)).mergeSort leI) s sub
+
+/-- one operation below block level; `restorePreviousGeometry` / `removeEdgeAssemblies` only take assemblies out -/
+def subStep (s : State) (sub : Sub) : Op → Sub
+  | .convert => subConvert s sub
+  | .addEdge => subAddEdge s sub
+  | .restore => sub
+  | .removeEdge => sub
+
+def pstep (p : State × Sub) (op : Op) : State × Sub := (step p.1 op, subStep p.1 p.2 op)
+
+def prun (p : State × Sub) (ops : List Op) : State × Sub := ops.foldl pstep p
+
 end ArmiVerif.Sym3
